@@ -228,7 +228,7 @@ def run_harness(bindir, args, timeout=900):
     return runs
 
 
-SLIM = {"reset": ("run", "ns", "nc"), "get": ("ret",), "fill": ("slot", "stamp"), "flush": ("ret", "kavail"),
+SLIM = {"wakeup": ("flags", "ret"), "reset": ("run", "ns", "nc"), "get": ("ret",), "fill": ("slot", "stamp"), "flush": ("ret", "kavail"),
         "consume": ("stamps",), "post": ("stamps",), "reap": ("ret",), "read": ("val",)}
 
 
@@ -332,7 +332,8 @@ class Stream:
 
 CLAUSE_OP = {"index_array_does_not_name_the_slots": "reset", "panic_get_slot": "get", "slot_refused_while_ring_not_full": "get", "get_slot_pointer_outside_ring": "get",
              "slot_handed_out_before_consumed": "get", "panic_flush": "flush", "flushed_entry_not_visible_to_kernel": "flush",
-             "kernel_sees_entry_never_flushed": "flush", "kernel_consumed_entry_never_flushed": "consume",
+             "kernel_sees_entry_never_flushed": "flush", "flush_did_not_return_the_number_of_unconsumed_entries": "flush",
+             "needs_wakeup_is_not_the_need_wakeup_bit": "wakeup", "kernel_consumed_entry_never_flushed": "consume",
              "consumed_wrong_entry_or_order": "consume", "panic_reap": "reap", "none_returned_while_completion_pending": "reap",
              "reap_pointer_outside_ring": "reap", "completion_returned_that_was_not_posted": "reap",
              "content_overwritten_between_return_and_read": "read", "wrong_completion_content": "read"}
